@@ -3,6 +3,7 @@ package main
 import (
 	"encoding/json"
 	"fmt"
+	"regexp"
 	"sort"
 	"strings"
 
@@ -74,6 +75,9 @@ type Monitors struct {
 	wasLeader    map[[2]int]bool
 	prevote      *prevoteState
 	prevote2     *prevoteState
+	// per (node, incarnation, index of a configuration entry appended by that leader): commitment index at the append
+	cfgAppendCommit map[[3]uint64]uint64
+	held            map[int]map[uint64]Applied // per node: what its log store holds (mirror kept by the store hooks)
 }
 
 func newMonitors(w *World) *Monitors {
@@ -345,7 +349,9 @@ func (m *Monitors) OnSend(msg *Msg) {
 		if sn := n.snaps.Newest(); sn != nil {
 			for _, e := range ae.Entries {
 				if e.Index <= sn.meta.Index {
-					if f, ok := m.agreed[e.Index]; ok && f.e != appliedOf(e) {
+					// (a deposed leader of an older term that has not noticed yet may still send what it holds:
+					// nobody will accept it; only a leader of the committing term or later is judged)
+					if f, ok := m.agreed[e.Index]; ok && f.e != appliedOf(e) && f.ct != 0 && ae.Term >= f.ct {
 						m.rootCause([]string{"C02", "C03", "C04"}, "stale-entry-below-own-snapshot-replicated",
 							"leader n%d (snapshot at %d) sends %v from its log although index %d was committed as %v: log entries left over below an installed snapshot are served as history", msg.From, sn.meta.Index, appliedOf(e), e.Index, f.e)
 						break
@@ -389,6 +395,12 @@ func (m *Monitors) OnReply(msg *Msg) {
 			m.grants[k] = cand
 			m.grantInc[k] = msg.ToInc
 		}
+	case *raft.InstallSnapshotRequest:
+		// a follower that installs the snapshot acknowledges the sender as leader of that term (the leader counts it
+		// towards VerifyLeader exactly like an AppendEntries success)
+		if resp, _ := msg.Resp.Response.(*raft.InstallSnapshotResponse); resp != nil && resp.Success {
+			m.acks = append(m.acks, ackRec{from: msg.From, to: msg.To, term: req.Term, delivAt: msg.DelivAt, repliedAt: w.events})
+		}
 	case *raft.AppendEntriesRequest:
 		resp, _ := msg.Resp.Response.(*raft.AppendEntriesResponse)
 		if resp != nil && resp.Success {
@@ -412,10 +424,20 @@ func (m *Monitors) OnStoreLogs(node int, logs []*raft.Log) {
 		if l.Type == raft.LogCommand {
 			m.storedIDs[string(l.Data)] = true
 		}
-		// C03 (b): overwriting a committed index with something else
-		if f, ok := m.agreed[l.Index]; ok && appliedOf(l) != f.e {
-			m.fail("C03", "committed-overwritten", "n%d stores %v over committed %v", node, appliedOf(l), f.e)
+		// C03 (b): overwriting a committed entry the server held with something else (a deposed leader that appends
+		// an entry of its own at an index it did not hold yet overwrites nothing)
+		if m.held == nil {
+			m.held = map[int]map[uint64]Applied{}
 		}
+		if m.held[node] == nil {
+			m.held[node] = map[uint64]Applied{}
+		}
+		if f, ok := m.agreed[l.Index]; ok && appliedOf(l) != f.e {
+			if prev, had := m.held[node][l.Index]; had && prev == f.e {
+				m.fail("C03", "committed-overwritten", "n%d stores %v over committed %v", node, appliedOf(l), f.e)
+			}
+		}
+		m.held[node][l.Index] = appliedOf(l)
 	}
 	// C07: a leader appends a configuration only after the previous one is committed
 	// and after an entry of its own term is committed
@@ -424,6 +446,12 @@ func (m *Monitors) OnStoreLogs(node int, logs []*raft.Log) {
 			if l.Type != raft.LogConfiguration {
 				continue
 			}
+			// what the commitment tracker had computed when this configuration took effect: commits up to here were
+			// decided under the previous configuration (or by the switch itself), later ones must satisfy the new one
+			if m.cfgAppendCommit == nil {
+				m.cfgAppendCommit = map[[3]uint64]uint64{}
+			}
+			m.cfgAppendCommit[[3]uint64{uint64(node), uint64(n.inc), l.Index}] = n.r.VerifCommitmentIndex()
 			ci := n.r.CommitIndex()
 			// previous configuration entry index in this log
 			var prevCfg uint64
@@ -446,7 +474,12 @@ func (m *Monitors) OnStoreLogs(node int, logs []*raft.Log) {
 					break
 				}
 			}
-			if firstOwn == 0 || firstOwn == l.Index || ci < firstOwn {
+			if s := n.snaps.Newest(); s != nil && s.meta.Term == l.Term && s.meta.Index <= ci {
+				firstOwn = 0 // an entry of this term is covered by the server's snapshot, hence committed
+			} else if firstOwn == 0 {
+				firstOwn = l.Index
+			}
+			if firstOwn == l.Index || ci < firstOwn {
 				m.fail("C07", "config-appended-before-own-term-commit", "leader n%d (term %d) appends configuration at %d before an entry of its term is committed (commit %d, first own %d)", node, l.Term, l.Index, ci, firstOwn)
 			}
 		}
@@ -457,6 +490,9 @@ func (m *Monitors) OnDeleteRange(node int, min, max uint64, removed []*raft.Log)
 	n := m.w.nodes[node]
 	if len(removed) == 0 {
 		return
+	}
+	for _, l := range removed {
+		delete(m.held[node], l.Index)
 	}
 	last := removed[len(removed)-1].Index
 	snapIdx := uint64(0)
@@ -812,18 +848,38 @@ func (m *Monitors) checkLeaderCommit(n *Node, ci uint64) {
 	if len(inForce.Servers) == 0 {
 		inForce = d.Latest
 	}
-	for _, s := range inForce.Servers {
-		if s.Suffrage != raft.Voter {
-			continue
+	count := func(cfg raft.Configuration) {
+		voters, have, holders = 0, 0, nil
+		for _, s := range cfg.Servers {
+			if s.Suffrage != raft.Voter {
+				continue
+			}
+			voters++
+			o := m.w.nodes[m.w.nodeByAddr(s.Address)]
+			if ol := o.store.Peek(ci); ol != nil && appliedOf(ol) == appliedOf(l) {
+				have++
+				holders = append(holders, string(s.ID))
+			} else if sn := o.snaps.Newest(); sn != nil && sn.meta.Index >= ci {
+				have++
+				holders = append(holders, string(s.ID))
+			}
 		}
-		voters++
-		o := m.w.nodes[m.w.nodeByAddr(s.Address)]
-		if ol := o.store.Peek(ci); ol != nil && appliedOf(ol) == appliedOf(l) {
-			have++
-			holders = append(holders, string(s.ID))
-		} else if sn := o.snaps.Newest(); sn != nil && sn.meta.Index >= ci {
-			have++
-			holders = append(holders, string(s.ID))
+	}
+	count(inForce)
+	if have*2 <= voters {
+		// The newest configuration entry X of the leader's log lies ABOVE ci and the commitment tracker had already
+		// reached ci when X took effect: ci was decided under the configuration before X (this check only sees the
+		// server at rest, after both happened).
+		var x uint64
+		for _, i := range n.store.Indexes() {
+			if n.store.Peek(i).Type == raft.LogConfiguration {
+				x = i
+			}
+		}
+		if c0, ok := m.cfgAppendCommit[[3]uint64{uint64(n.id), uint64(n.inc), x}]; ok && x > ci && ci <= c0 {
+			if prev := m.prevConfiguration(n, x); len(prev.Servers) > 0 {
+				count(prev)
+			}
 		}
 	}
 	if have*2 <= voters {
@@ -865,6 +921,16 @@ func (m *Monitors) prevConfiguration(n *Node, idx uint64) raft.Configuration {
 		}
 	}
 	return cfg
+}
+
+// failedUserRestore: a user Restore was attempted on this server and did not return nil.
+func (m *Monitors) failedUserRestore(node int) bool {
+	for _, c := range m.w.calls {
+		if c.Node == node && (c.Kind == "restore" || c.Kind == "restore-must-fail") && (!c.Done || c.Err != nil) {
+			return true
+		}
+	}
+	return false
 }
 
 // checkLogs: C04 log matching over durable logs, C07 at most one uncommitted configuration, C11 contiguity.
@@ -910,6 +976,11 @@ func (m *Monitors) checkLogs() {
 				}
 			}
 			d := n.r.VerifDump()
+			if m.failedUserRestore(n.id) {
+				// operator override (documented hazard of Restore): a Restore that did not succeed leaves a local snapshot
+				// above entries the cluster goes on to replace; what a restart would read from it is not judged here
+				wantIdx = 0
+			}
 			if wantIdx > 0 && (d.LatestIndex != wantIdx || fmt.Sprint(d.Latest.Servers) != fmt.Sprint(want.Servers)) {
 				m.fail("C07", "configuration-not-from-log", "n%d acts on configuration %v@%d but the newest configuration in its snapshot/log is %v@%d", n.id, d.Latest.Servers, d.LatestIndex, want.Servers, wantIdx)
 			}
@@ -1057,7 +1128,7 @@ func (m *Monitors) outcome() string {
 	for _, c := range w.calls {
 		e := "nil"
 		if c.Err != nil {
-			e = c.Err.Error()
+			e = ptrRe.ReplaceAllString(c.Err.Error(), "0xPTR") // some error texts print a pointer
 		}
 		if !c.Done {
 			e = "pending"
@@ -1072,6 +1143,8 @@ func (m *Monitors) outcome() string {
 	sb.WriteString(strings.Join(vs, ","))
 	return sb.String()
 }
+
+var ptrRe = regexp.MustCompile(`0x[0-9a-f]{6,}`)
 
 var globalKnown *KnownFindings
 
